@@ -11,9 +11,9 @@ ESEQ = "explicit-state BFS over the real server (histories replayed on the real 
 EFUN = "bounded-exhaustive enumeration of a finite input space through the real code, compared with a reference"
 NOTE = "Trusts the Spec's transcription of the statement and the additive snapshot/gate hooks; bounded participants, alphabet and depth (reported in the evidence); wall-clock fields masked; true multi-core overlap is C18's business."
 CLAIMED = {
- "C01": ("E-SEQ", ESEQ + "; PRIVMSG/NOTICE probe battery in every reachable state", "DESIGN.md §4 C01",
-         "Every history of joins/parts/kicks/nick and rank changes/quits up to the depth bound is executed; in every reachable state every user sends PRIVMSG/NOTICE to channel, nick, own nick, comma lists with duplicates and missing names, status-prefixed targets; the deliveries on every socket are compared with the Spec audience (exactly one copy, exact prefix/target/text, nothing elsewhere). Bounded exhaustive.", NOTE),
- "C04": ("E-SEQ", ESEQ + "; view-agreement (NAMES/WHO/WHOIS) and roster-reconstruction oracles", "DESIGN.md §4 C04",
+ "C01": ("E-SEQ", ESEQ + "; PRIVMSG/NOTICE probe battery in every reachable state; plus a bounded-exhaustive sweep of line lengths up to the limit", "DESIGN.md §4 C01",
+         "Every history of joins/parts/kicks/nick and rank changes/quits up to the depth bound is executed; in every reachable state every user sends PRIVMSG/NOTICE to channel, nick, own nick, comma lists with duplicates and missing names, status-prefixed targets; the deliveries on every socket are compared with the Spec audience (exactly one copy, exact prefix/target/text, nothing elsewhere); messages whose line fills the 2000-byte limit arrive whole. Bounded exhaustive.", NOTE),
+ "C04": ("E-SEQ", ESEQ + "; view-agreement (NAMES/WHO/WHOIS) and roster-reconstruction oracles; plus bounded-exhaustive sweeps of roster sizes around the NAMES chunk size, names at the advertised length limits and many queued announcements", "DESIGN.md §4 C04",
          "Every history up to the depth bound of JOIN/PART/KICK/NICK/QUIT/EOF by 3 users + an outsider over 2 channels is executed on the real handlers; in every reachable state NAMES/WHO/WHOIS from every viewpoint are compared with each other and the roster, every announcement with the Spec, and each client's roster is rebuilt from JOIN-time NAMES + announcements.", NOTE),
  "C05": ("E-SEQ", EFUN + " (line grammar x session states) driven through the E-SEQ engine at depth 1-2", "DESIGN.md §4 C05",
          "A bounded-exhaustive line grammar (43 verbs x arity 0..max+1 x parameter-shape menus, raw byte payloads, EOF variants) is sent through the real connection loop in 10 session states (thorough: full menus and all ordered pairs of a core alphabet); after every input no task may have aborted, no connection may be closed unless the protocol ends it, and sender and bystanders must still be served.", NOTE),
@@ -21,7 +21,7 @@ CLAIMED = {
          "The full product of admission conditions (key, supplied key, ban, exception, +i, invitation, invite-exception, limit, quota, membership) and an E-SEQ search with evolving lists; each JOIN is judged against the statement's iff on the Spec state with a reference glob (refusal: nothing changes, matching numeric; acceptance: member, invitation consumed, announced).", NOTE),
  "C08": ("E-SEQ+E-FUN", ESEQ + "; plus privilege-matrix sweep", "DESIGN.md §4 C08",
          "Privilege matrix actor rank x letter x sign x target rank (and flag/list/key/limit letters, composite strings) in fresh worlds, and reachability search with 3 members; refused letters leave the channel as it was (482/442), accepted ones are applied, announced to all members (effective <= announced <= permitted), shown by MODE/NAMES/list queries and enforced by JOIN/PRIVMSG/TOPIC/KICK/INVITE.", NOTE),
- "C09": ("E-SEQ", ESEQ, "DESIGN.md §4 C09",
+ "C09": ("E-SEQ+E-FUN", ESEQ + "; plus rank-matrix sweep in fresh worlds and a sweep of topic lengths", "DESIGN.md §4 C09",
          "Every history up to the bound of rank changes, KICK (single, lists, self, absent), TOPIC (set/clear/colon text), INVITE (present/absent/unknown) and JOIN-by-invitation over founder + 2 members + outsider; Spec rank rules; refusal effect-free with the right numeric; announcements to exactly the right sockets; TOPIC/LIST probes in every state.", NOTE),
  "C10": ("E-SEQ", ESEQ + "; PRIVMSG/NOTICE probes in every state", "DESIGN.md §4 C10",
          "Every history up to the bound of +n/+m/+s, ban/exception of the sender's mask, voice, sender JOIN/PART/NICK and recipient AWAY; in every state PRIVMSG and NOTICE probes; deliver iff the statement's conjunction, 404 otherwise, NOTICE never answered, 301 with the away text.", NOTE),
@@ -44,12 +44,12 @@ CLAIMED["C19"] = ("E-SEQ", ESEQ + "; LUSERS/ISON/USERHOST probes in every state;
     "Every history up to the bound of registrations, +-i, OPER (repeated), -o/-O, AWAY, NICK, JOIN/PART, QUIT/EOF/KILL with LUSERS/ISON/USERHOST compared with recounts in every state; for max_connections 1..3 every pattern of connect/register/wrong password/invalid bytes/QUIT/EOF/KILL: never more than max served, counter = live connections, freed slots are served again.", NOTE)
 CLAIMED["C12"] = ("E-SEQ", "two-world (non-interference) explicit-state BFS: every reachable state is re-created in a second real server world with the hidden part deleted and the observer's query battery must be answered identically", "DESIGN.md §4 C12",
     "Every history up to the bound in which a secret channel / an invisible user comes into being; in every state where the hiding condition holds the observer's LIST/NAMES/WHO/WHOIS queries (names, comma lists, wildcard masks, no argument) are answered identically in the world with and the world without the hidden part; messages into the secret channel reach nobody.", NOTE)
-CLAIMED["C13"] = ("E-FUN", EFUN + " (RFC tokenizer, arity table); segmentation/limit sweep of the codec; relay round trip in real worlds", "DESIGN.md §4 C13",
+CLAIMED["C13"] = ("E-FUN", EFUN + " (RFC tokenizer, arity table); segmentation/limit sweep of the codec; relay round trip, surplus-parameter and invalid-parameter differentials in real worlds", "DESIGN.md §4 C13",
     "All strings up to length L over {A,a,space,:,comma,#} through the real parser vs a reference tokenizer; 41 verbs x letter case x arity through Command::from_message and on the wire (461/421); a 3-line payload at every 1- and 2-cut segmentation, lines around the 2000-byte limit, blank lines; every relayed verb with every short text over {a,space,:} re-parsed at the receiver.", NOTE)
-CLAIMED["C17"] = ("E-SEQ", ESEQ + " with a virtual (paused tokio) clock driving the server's real timer tasks; 9 timeout configurations", "DESIGN.md §4 C17",
+CLAIMED["C17"] = ("E-SEQ", ESEQ + " with a virtual (paused tokio) clock driving the server's real timer tasks; 9 timeout configurations; plus a sweep of PING token lengths up to the line limit", "DESIGN.md §4 C17",
     "For every (ping_timeout, pong_timeout) in {1,2,3}^2 every client response pattern up to the horizon (per virtual second: silence, PONG right/wrong token, PING tok, other traffic): server PINGs on schedule, a client without an unanswered PING is never dropped, a silent one is sent ERROR and dropped within pong_timeout (+1 s) of the first unanswered PING and not before, and leaves no trace.", NOTE)
 CLAIMED["C18"] = ("E-INT", "stateless exhaustive schedule search (DFS by re-execution, optional preemption bound) over the real connection futures stepped one tokio synchronisation operation at a time; linearizability against sequential runs of the same code", "DESIGN.md §3.2, §4 C18",
-    "For 25 bursts of 2-3 connections every interleaving at the granularity of single tokio synchronisation operations (lock acquisitions, socket reads, flushes, the password-check yield) is executed on the real code; each outcome (final state, ordered replies per connection, ordered relays per sender/receiver pair, who is registered/closed) must equal the outcome of some sequential execution; plus representation invariants, deadlock detection and a PING liveness round.", "Single-threaded stepping covers multi-threaded executions up to Lipton reduction (every shared access is inside a tokio lock section, an atomic or an mpsc send); memory-ordering effects not modelled (all atomics SeqCst); bursts are small (<= 3 connections, <= 3 commands each).")
+    "For every burst of the registered list (2-3 connections, 1-3 commands each; the evidence names them) every interleaving at the granularity of single tokio synchronisation operations (lock acquisitions, socket reads, flushes, the password-check yield) is executed on the real code; each outcome (final state, ordered replies per connection, ordered relays per sender/receiver pair, who is registered/closed) must equal the outcome of some sequential execution; plus representation invariants, deadlock detection and a PING liveness round.", "Single-threaded stepping covers multi-threaded executions up to Lipton reduction (every shared access is inside a tokio lock section, an atomic or an mpsc send); memory-ordering effects not modelled (all atomics SeqCst); bursts are small (<= 3 connections, <= 3 commands each).")
 CLAIMED["C20"] = ("E-FUN", EFUN + " (validity predicate over a configuration lattice); liveness of every documented key; hash/verify pairs; welcome-burst conformance in real worlds", "DESIGN.md §4 C20",
     "The full product of per-field validity menus x 11 command-line variants (33 792 configurations) through the real Cli/MainConfig::new; every leaf key of config-example.toml shown to be live; 20x20 password pairs through hash/verify; 288 valid configurations on the wire (welcome burst, default modes, max_joins, server password).", "Quick tier: start-up failure is observed as MainConfig::new returning Err, which main() propagates before run_server. Thorough tier adds the production binary itself (start-up exit codes, -g) and the TLS-on/TLS-off transcript comparison over loopback with a rustls client trusting test_data/cert.crt; these need loopback sockets.")
 PENDING = {}
